@@ -149,6 +149,9 @@ def run(chk, tier, seed):
     unc += ['//?/c:/x', '//?/UNC/h/s/x', '//?/GLOBAL/c:/x', '//+/a/b', '//h(/s)/x', 'c:/[a', '//./c:/*', '\\\\h+\\s\\*']
     wf = [W.FORCEWIN | W.CASE | W.EXTMATCH, W.FORCEWIN | W.EXTMATCH | W.GLOBSTAR]
     jobs += [(unc[i:i + 400], wf) for i in range(0, len(unc), 400)]
+    # user-directory expansion (GLOBTILDE): unknown and impossible user names are not errors
+    tilde = ['~', '~/x*', '~nosuchuser/x', '~\x00', '~\x00/x', '~root/\x00', '~a b', '~[', '~(', '~|~', '!~\x00', '~\\', '~/\x00']
+    jobs += [(tilde, [W.GLOBTILDE | W.FORCEUNIX, W.GLOBTILDE | W.FORCEUNIX | W.REALPATH | W.NEGATE | W.SPLIT, W.GLOBTILDE | W.EXTMATCH])]
     total = 0
     nb = 0
     slow_all = []
